@@ -65,9 +65,20 @@ def tx_dump(case, ctx):
         args.append("--one-based-starts")
     if case["header"]:
         args.append("--header")
+    outfile = None
+    if case.get("out") in ("fresh", "existing"):
+        # -o FILE: a new file, or one that already holds the (longer) output of an earlier run
+        outfile = os.path.join(ctx.subdir(), "dump.txt")
+        if case["out"] == "existing":
+            with open(outfile, "w") as f:
+                f.write("stale\tline\tof\tan\tearlier\trun\n" * 50)
+        args += ["-o", outfile]
     err, out = _run_cli(args)
     if err:
         return {"err": err, "msg": out[-200:]}
+    if outfile:
+        with open(outfile) as f:
+            out = f.read()
     lines = [ln for ln in out.split("\n") if ln != ""]
     header = []
     if case["header"] and lines:
